@@ -53,6 +53,7 @@ type Node struct {
 	Protos    map[string]p2pmsg.Message
 	Storage   *gnosisaccessnode.Storage // access node only
 	accessCfg *gnosisaccessnode.Config
+	SendMode  bool          // accepted messages go through the real P2PMessaging.handle (Handle + SendMessage; Publish fails)
 	Wd        time.Duration // watchdog (0: Watchdog); confirmation runs use a longer one
 	closers   []func()
 	pre       *fakepg.DB
@@ -76,6 +77,14 @@ func NewCoreNode(ctx context.Context, w *World) (*Node, error) {
 }
 
 func newNodeBase(ctx context.Context, flavour string) (*Node, error) {
+	return newNodeBaseMode(ctx, flavour, false)
+}
+
+var allTopics = []string{"decryptionTrigger", "decryptionKeys", "decryptionKeyShares", "EonPublicKey", "primevCommitment"}
+
+// newNodeBaseMode: with publishFails the messaging sits on a P2PNode with a real libp2p host whose
+// topics are closed, so that SendMessage of a handler output fails to publish.
+func newNodeBaseMode(ctx context.Context, flavour string, publishFails bool) (*Node, error) {
 	n := &Node{Flavour: flavour, PG: fakepg.New(), Handlers: map[string][]p2p.MessageHandler{}, Protos: map[string]p2pmsg.Message{}}
 	n.PG.SetLogging(false)
 	pool, err := n.PG.Pool(ctx, fakepg.MaxConns(4))
@@ -84,6 +93,16 @@ func newNodeBase(ctx context.Context, flavour string) (*Node, error) {
 		return nil, err
 	}
 	n.Pool = pool
+	if publishFails {
+		m, closeFn, err := p2p.VerifGossipvalNewMessagingPublishFails(ctx, allTopics)
+		if err != nil {
+			n.Close()
+			return nil, err
+		}
+		n.Msg, n.SendMode = m, true
+		n.closers = append(n.closers, closeFn)
+		return n, nil
+	}
 	n.Msg = p2p.VerifGossipvalNewMessaging()
 	return n, nil
 }
@@ -226,6 +245,9 @@ func firstFrames(stack string) string {
 func (n *Node) Handle(ctx context.Context, d Delivery) (msgs []p2pmsg.Message, herr string, detail string) {
 	pm := d.PubsubMessage()
 	r, to := guarded(n.Wd, func() callResult {
+		if n.SendMode { // what runHandleMessages does with the message: handle = Handle + SendMessage of the outputs
+			return callResult{err: n.Msg.VerifGossipvalHandle(ctx, pm)}
+		}
 		um, _, err := p2p.UnmarshalPubsubMessage(pm)
 		if err != nil {
 			return callResult{err: err}
